@@ -320,6 +320,19 @@ func Observe(p Prim, k *Known, failMode map[string]string) Obs {
 							io.Q = append(io.Q, PartObs{Hk: hv, Fwd: mk(&tr), Rev: mk(&fa)})
 						}
 					}
+					// the observation of an index ends with the read it began with, so that - across the operation between two
+					// observations - the last and the first read through every index are the same read in the same direction
+					// (an implementation that caches something per read direction is then asked twice in a row); the two scans of
+					// one observation must agree, the second one is what the judge sees
+					again := p.Read(c, &ReadArgs{T: t, Kind: "scan", Index: &n})
+					again.shape = "read"
+					j1, _ := json.Marshal(io.Scan)
+					j2, _ := json.Marshal(again)
+					if string(j1) != string(j2) && again.Err == "none" && io.Scan.Err == "none" {
+						again.Err = "other"
+						again.Msg = "two scans of the index within one observation differ"
+					}
+					io.Scan = again
 					to.Idx = append(to.Idx, io)
 				}
 			}
@@ -390,11 +403,14 @@ func (r *Runner) registerOn(n *interpreter.Native, side int, e *Event) *Resp {
 				return verdict
 			})
 		case "AddUpdater":
-			attr, val := e.Attr, e.Val
+			attr, val, rem := e.Attr, e.Val, e.Rem
 			n.AddUpdater(e.T, text, func(item, attrs map[string]*mtypes.Item) {
 				r.fired[side][id] = true
 				if val != nil {
 					item[attr] = ToCore(*val)
+				}
+				if rem != "" {
+					delete(item, rem)
 				}
 			})
 		}
